@@ -85,6 +85,12 @@ def dfltDelayMs : Int := 5000
 def dfltTimeoutMs : Int := 30000
 def msNs : Int := 1000000
 
+/-- two's-complement wrap-around of Go's int64 arithmetic: the signed value of `x mod 2^64` -/
+def wrap64 (x : Int) : Int := (x + 9223372036854775808) % 18446744073709551616 - 9223372036854775808
+
+/-- `time.Duration(n) * time.Millisecond` (nanoseconds, int64, silently wrapping on overflow) -/
+def mulMs (n : Int) : Int := wrap64 (n * msNs)
+
 /-- options (`none` = not passed; durations in ms as handed to `time.Duration(n)*time.Millisecond`) and
 the four OTEL_BSP_* variables -/
 structure BspIn where
@@ -116,13 +122,13 @@ def bspEnvSizes (eq eb : Env) : Int × Int :=
 
 def newBSP (i : BspIn) : BspOut :=
   let (q1, b2) := bspEnvSizes i.eq i.eb
-  let d := intEnvOr i.ed dfltDelayMs * msNs
-  let t := intEnvOr i.et dfltTimeoutMs * msNs
+  let d := mulMs (intEnvOr i.ed dfltDelayMs)
+  let t := mulMs (intEnvOr i.et dfltTimeoutMs)
   -- options overwrite blindly
   let q := i.oq.getD q1
   let b := i.ob.getD b2
-  let d := match i.od with | some v => v * msNs | none => d
-  let t := match i.ot with | some v => v * msNs | none => t
+  let d := match i.od with | some v => mulMs v | none => d
+  let t := match i.ot with | some v => mulMs v | none => t
   -- F8 repair: negative sizes fall back to the defaults
   let q := if q < 0 then dfltQueue else q
   let b := if b < 0 then dfltBatch else b
@@ -182,14 +188,14 @@ def clearLT1 (s : Option Int) : Option Int :=
   | some v => if v < 1 then none else some v
   | none => none
 
-/-- `getenv[T](key)`; `scale` = 1 for ints, 10^6 for `time.Duration` (milliseconds) -/
-def getenvInt (v : Env) (scale : Int) (s : Option Int) : Option Int :=
+/-- `getenv[T](key)`; `conv` = identity for ints, `mulMs` for `time.Duration` (milliseconds, wrapping) -/
+def getenvInt (v : Env) (conv : Int → Int) (s : Option Int) : Option Int :=
   match s with
   | some x => some x
   | none =>
     match v with
     | none => none
-    | some str => if str.isEmpty then none else match atoi str with | some n => some (n * scale) | none => none
+    | some str => if str.isEmpty then none else match atoi str with | some n => some (conv n) | none => none
 
 def clampMax (n : Int) (s : Option Int) : Option Int := s.map (fun v => if v > n then n else v)
 def fallback {α : Type} (d : α) (s : Option α) : α := match s with | some v => v | none => d
@@ -214,16 +220,16 @@ structure BlrpOut where
 deriving DecidableEq, Repr
 
 def newBatchConfig (x : BlrpIn) : BlrpOut :=
-  let q := fallback 2048 (clearLT1 (getenvInt x.eq 1 (clearLT1 x.oq)))
-  let i := fallback 1000000000 (clearLT1 (getenvInt x.ei msNs (clearLT1 x.oi)))
-  let t := fallback 30000000000 (clearLT1 (getenvInt x.et msNs (clearLT1 x.ot)))
-  let b := fallback 512 (clampMax q (clearLT1 (getenvInt x.eb 1 (clearLT1 x.ob))))
+  let q := fallback 2048 (clearLT1 (getenvInt x.eq id (clearLT1 x.oq)))
+  let i := fallback 1000000000 (clearLT1 (getenvInt x.ei mulMs (clearLT1 x.oi)))
+  let t := fallback 30000000000 (clearLT1 (getenvInt x.et mulMs (clearLT1 x.ot)))
+  let b := fallback 512 (clampMax q (clearLT1 (getenvInt x.eb id (clearLT1 x.ob))))
   let buf := fallback 1 (clearLT1 x.obuf)
   { q := q, i := i, t := t, b := b, buf := buf }
 
 /-- sdk/log `newProviderConfig`: (attribute count limit, attribute value length limit) -/
 def logLimits (ocnt olen : Option Int) (ecnt elen : Env) : Int × Int :=
-  (fallback 128 (getenvInt ecnt 1 ocnt), fallback (-1) (getenvInt elen 1 olen))
+  (fallback 128 (getenvInt ecnt id ocnt), fallback (-1) (getenvInt elen id olen))
 
 /-! ## path.Clean / path.Join / cleanPath -/
 
@@ -490,7 +496,7 @@ def envToOpts (v : Env) : List Opt :=
   | none => []
   | some s => match atoi s with
     | none => []
-    | some n => [.user (.timeout (n * msNs))]
+    | some n => [.user (.timeout (mulMs n))]
 
 /-- `getOptionsFromEnv()`: generic before specific for every setting -/
 def envOpts (parse : Parse) (e : OtlpEnv) : List Opt :=
@@ -578,7 +584,7 @@ def convInsecureWord (s : Bytes) : Option Bool :=
   let l := toLower s
   if l == sTrue then some true else if l == sFalse then some false else none
 
-def convDuration (s : Bytes) : Option Int := (atoi s).map (· * msNs)
+def convDuration (s : Bytes) : Option Int := (atoi s).map mulMs
 
 /-- `newConfig` of otlploghttp / otlploggrpc -/
 def newLogConfig (exp : Exp) (parse : Parse) (e : OtlpEnv) (opts : List UOpt) : Cfg :=
